@@ -173,6 +173,48 @@ fn run_reader_udp(rt: &tokio::runtime::Runtime, chunks: Vec<Vec<u8>>) -> Option<
     }))
 }
 
+/// ... and a loopback websocket (the wsbroad relay of the documentation): every binary message is one read; the
+/// server closes the connection after the last one, which ends the stream.
+fn run_reader_ws(rt: &tokio::runtime::Runtime, chunks: Vec<Vec<u8>>) -> Option<Result<Vec<Vec<u8>>, (String, String)>> {
+    use futures_util::SinkExt;
+    use tokio_tungstenite::tungstenite::protocol::Message as WsMessage;
+    let listener = rt.block_on(async { tokio::net::TcpListener::bind("127.0.0.1:0").await.ok() })?;
+    let addr = listener.local_addr().ok()?;
+    Some(guarded(|| {
+        rt.block_on(async {
+            let server = tokio::spawn(async move {
+                if let Ok((sock, _)) = listener.accept().await {
+                    if let Ok(mut ws) = tokio_tungstenite::accept_async(sock).await {
+                        for c in chunks {
+                            if ws.send(WsMessage::Binary(c.into())).await.is_err() {
+                                break;
+                            }
+                            for _ in 0..3 {
+                                tokio::task::yield_now().await;
+                            }
+                        }
+                        let _ = ws.close(None).await;
+                    }
+                }
+            });
+            let mut out = vec![];
+            if let Ok((ws, _)) = tokio_tungstenite::connect_async(format!("ws://{addr}/feed")).await {
+                let (_, rx) = ws.split();
+                let s = next_msg(DataSource::Websocket(rx)).await;
+                pin_mut!(s);
+                while let Some(m) = s.next().await {
+                    out.push(m);
+                    if out.len() > 10_000 {
+                        break;
+                    }
+                }
+            }
+            let _ = server.await;
+            out
+        })
+    }))
+}
+
 fn split(raw: &[u8], cuts: &[usize]) -> Vec<Vec<u8>> {
     let mut out = vec![];
     let mut prev = 0;
@@ -347,7 +389,7 @@ fn exercise(r: &mut Report, rt: &tokio::runtime::Runtime, rng: &mut Rng, frames:
 }
 
 pub fn run(a: &Args, r: &mut Report) {
-    r.rule = "frame sequences of 1-8 Beast frames (0x31/0x32/0x33 and 0x34 which must be swallowed), 0x1A density 0-40 %, runs of 2-6 consecutive 0x1A, 0x1A as first/last byte of timestamp, signal and payload; chunkings: one piece, EVERY single cut and EVERY pair of cuts of each short stream (<= 80 raw bytes quick, <= 200 thorough), random multi-cut, 1-byte dribble, cuts before/between/after every escape pair of long streams (up to 3000 bytes, 1024-byte reads); delivered through hook H1 on a current-thread executor; in addition random chunkings through the real TCP and UDP arms over loopback sockets (no hook; UDP judged on content only). distinct = distinct (stream, chunking) pairs with a correct result".into();
+    r.rule = "frame sequences of 1-8 Beast frames (0x31/0x32/0x33 and 0x34 which must be swallowed), 0x1A density 0-40 %, runs of 2-6 consecutive 0x1A, 0x1A as first/last byte of timestamp, signal and payload; chunkings: one piece, EVERY single cut and EVERY pair of cuts of each short stream (<= 80 raw bytes quick, <= 200 thorough), random multi-cut, 1-byte dribble, cuts before/between/after every escape pair of long streams (up to 3000 bytes, 1024-byte reads); delivered through hook H1 on a current-thread executor; in addition random chunkings through the real TCP, UDP and websocket arms over loopback sockets (no hook; UDP judged on content only), incl. datagrams and messages longer than 1024 bytes. distinct = distinct (stream, chunking) pairs with a correct result".into();
     r.assumptions.push("a frame may stay pending while fewer than 23 bytes (one byte of slack per escape pair, for chunked deliveries) of the stream remain after the last frame handed on".into());
     let rt = tokio::runtime::Builder::new_current_thread().build().unwrap();
     if let Some(p) = &a.replay {
@@ -428,6 +470,14 @@ pub fn run(a: &Args, r: &mut Report) {
                     judge(r, &case, &cuts, &got, None, "udp-loopback(real socket arm)");
                 }
             }
+            if i % 8 == 5 || i % 16 == 7 {
+                // websocket messages: small pieces, or (long streams) blocks larger than 1024 bytes
+                let chunks = if raw.len() > 1024 { raw.chunks(3000).map(|c| c.to_vec()).collect() } else { split(&raw, &cuts) };
+                let label = if chunks.iter().any(|c| c.len() > 1024) { "websocket-large-message(real socket arm)" } else { "websocket-loopback(real socket arm)" };
+                if let Some(got) = run_reader_ws(&rt_io, chunks) {
+                    judge(r, &case, &cuts, &got, coarse.as_ref().ok(), label);
+                }
+            }
             if i % 16 == 3 && raw.len() > 1024 {
                 // datagrams as a UDP relay really sends them: MTU-sized (1400) or a whole socat block (8192), i.e. longer
                 // than 1024 bytes. A datagram is delivered by one read or not at all.
@@ -462,6 +512,6 @@ pub fn run(a: &Args, r: &mut Report) {
         exercise(r, &rt, &mut rng, &frames, false, 0);
     }
     if !a.asan {
-        r.extra.insert("mandatory".into(), json!(["one-piece", "single-cut(exhaustive)", "double-cut(exhaustive)", "dribble(1-byte reads)", "cut:between-two-0x1A", "cut:just-after-0x1A", "cut:just-before-0x1A", "cut:at-frame-boundary", "cut-at-escape-pair", "udp-large-datagram(real socket arm)", "whole-stream-in-one-read(> 1024 bytes)", "tcp-loopback(real socket arm)"]));
+        r.extra.insert("mandatory".into(), json!(["one-piece", "single-cut(exhaustive)", "double-cut(exhaustive)", "dribble(1-byte reads)", "cut:between-two-0x1A", "cut:just-after-0x1A", "cut:just-before-0x1A", "cut:at-frame-boundary", "cut-at-escape-pair", "udp-large-datagram(real socket arm)", "websocket-loopback(real socket arm)", "websocket-large-message(real socket arm)", "whole-stream-in-one-read(> 1024 bytes)", "tcp-loopback(real socket arm)"]));
     }
 }
